@@ -116,7 +116,9 @@ def replay_scalar(world, contract, model, fn=None):
     for p, t in contract.params.items():
         if isinstance(t, ObjType):
             raise CannotConcretize(f'object parameter {p}')
-        args[p] = concretize(model, t, z3.Const(p, t.sort()))
+        tr = getattr(world, 'tree', None)
+        clash = tr is not None and isinstance(getattr(tr, p, None), z3.FuncDeclRef)      # same naming rule as Engine.fresh_param
+        args[p] = concretize(model, t, z3.Const(p + '$arg' if clash else p, t.sort()))
     return call_and_check(world, contract, args, fn)
 
 
